@@ -74,6 +74,35 @@ structure St where
   negRealistic : Nat := 0
   negMaxDelivered : Nat := 0
   negTaproot : Nat := 0
+  negBudget : Int := 0
+  negSkipBelow10 : Nat := 0
+  negSkipOverBudget : Nat := 0
+  negSkipOwnCap : Nat := 0
+  negSkipOtherCap : Nat := 0
+  negChecked : Nat := 0
+  negOverBudgetAborts : Nat := 0
+  negDustOther : Nat := 0
+  factSeen : Bool := false
+  fundsChecked : Nat := 0
+  feeUpdateCases : Nat := 0
+  feeUpdateAsym : Nat := 0
+  -- rbf stream
+  rbfStuck : List String := []
+  rbfPending : Option (String × Int × String × Nat × String) := none  -- closer, fee, label, lock, model tx
+  rbfAcceptTx : Option String := none
+  rbfCases : Nat := 0
+  rbfSent : Nat := 0
+  rbfSkips : Nat := 0
+  rbfOfferErrs : Nat := 0
+  rbfAccepted : Nat := 0
+  rbfFinished : Nat := 0
+  rbfTaproot : Nat := 0
+  rbfLabelCloserOnly : Nat := 0
+  rbfLabelCloseeOnly : Nat := 0
+  rbfLabelBoth : Nat := 0
+  rbfLabelDisagree : Nat := 0
+  rbfLatentLock : Nat := 0
+  rbfLatentLockRejected : Nat := 0
 
 def mismatch (s : St) (detail : String) : IO St := do
   IO.println s!"MISMATCH case={s.caseId} line={s.lines} {detail}"
@@ -186,10 +215,30 @@ def chanMonitor (s : St) : IO St := do
   let hdr := s.hdr
   let mut s := s
   let a := va.v
-  -- precondition of the property: both sides hold the same HTLC-free state
-  if vb.v != a.mirror || va.capacity != vb.capacity then
-    s ← monitor s "state-sync" "the two sides' commitment balances / parameters are not mirror images"
+  -- precondition of the property: both sides hold the same HTLC-free state, i.e. the same
+  -- parameters and the same CREDITED sat balances (Spec `Counterpart`; a pending update_fee
+  -- changes commit fee and opener balance together and keeps this)
+  let b := vb.v
+  let credit (w : View) : Int := w.commitFee + (if w.anchors then 660 else 0)
+  let aLoc : Int := Int.ofNat (a.localMsat / 1000) + (if a.isInit then credit a else 0)
+  let aRem : Int := Int.ofNat (a.remoteMsat / 1000) + (if a.isInit then 0 else credit a)
+  let bLoc : Int := Int.ofNat (b.localMsat / 1000) + (if b.isInit then credit b else 0)
+  let bRem : Int := Int.ofNat (b.remoteMsat / 1000) + (if b.isInit then 0 else credit b)
+  let reached := (kv? hdr "reached").getD ""
+  if reached.startsWith "feeupdate" then
+    s := { s with feeUpdateCases := s.feeUpdateCases + 1,
+                  feeUpdateAsym := s.feeUpdateAsym + (if b != a.mirror then 1 else 0) }
+  if b.isInit == a.isInit || b.anchors != a.anchors || b.taproot != a.taproot ||
+      b.localDust != a.remoteDust || b.remoteDust != a.localDust || va.capacity != vb.capacity ||
+      aLoc != bRem || aRem != bLoc then
+    s ← monitor s "state-sync" s!"the two sides' credited balances / parameters do not correspond (A {aLoc}/{aRem}, B {bLoc}/{bRem})"
     return s
+  -- states produced by the real state machine must account for the whole capacity
+  if reached != "forced" then
+    s := { s with fundsChecked := s.fundsChecked + 1 }
+    for w in [a, b] do
+      if Int.ofNat (w.localMsat + w.remoteMsat) + 1000 * credit w != 1000 * va.capacity then
+        s ← monitor s "funds" s!"balances + commit fee + anchors do not add up to the capacity {va.capacity}: {w.localMsat}+{w.remoteMsat} msat, credit {credit w}"
   let some fee := kvInt? hdr "fee" | return s
   let mode := (kv? hdr "mode").getD "legacy"
   let rbf := mode != "legacy"
@@ -259,7 +308,7 @@ def specRatchet (f : Int) (up : Bool) : Int :=
   if up then f + f.toNat / 10 else f - f.toNat / 10
 
 def negErrName : NegErr → String
-  | .exceedsMax => "exceedsmax" | .cannotAfford => "afford" | .taprootMismatch => "taprootmismatch"
+  | .exceedsMax => "exceedsmax" | .cannotAfford => "cannotsign" | .taprootMismatch => "taprootmismatch"
 
 def replyStr : Reply → String
   | .send f => s!"send {f}" | .final f => s!"final {f}" | .silent => "none"
@@ -273,20 +322,140 @@ def sortInts (l : List Int) : List Int :=
 
 def natAbs (x : Int) : Nat := x.natAbs
 
+/-- one side's RBF close terms, from the case header and the `view` lines. -/
+def rbfTermsOf (s : St) (who : String) : Option RbfTerms := do
+  let va ← s.viewA
+  let vb ← s.viewB
+  let sA := scriptOf s.hdr "sA"
+  let sB := scriptOf s.hdr "sB"
+  let sdA := (kvInt? s.hdr "sdA").getD 0
+  let sdB := (kvInt? s.hdr "sdB").getD 0
+  if who == "A" then
+    pure { v := va.v, localScript := sA, remoteScript := sB, sdLocal := sdA, sdRemote := sdB }
+  else
+    pure { v := vb.v, localScript := sB, remoteScript := sA, sdLocal := sdB, sdRemote := sdA }
+
+def labelName : SigLabel → String
+  | .closerOnly => "closerOnly" | .closeeOnly => "closeeOnly" | .both => "both"
+
+def labelOf : String → Option SigLabel
+  | "closerOnly" => some .closerOnly | "closeeOnly" => some .closeeOnly | "both" => some .both
+  | _ => none
+
+def otherSide (w : String) : String := if w == "A" then "B" else "A"
+
+/-- the fee of a side's automatic first offer (made when the channel is flushed). -/
+def rbfFirstFee (hdr : List String) (who : String) (capacity : Int) : Int :=
+  let ws := ((kv? hdr "who").getD "").splitOn ","
+  let fs := intList ((kv? hdr "fees").getD "-")
+  match (ws.zip fs).find? (fun p => p.1 == who) with
+  | some p => p.2
+  | none => capacity + 1
+
+/-- outputs the property requires for an RBF iteration with closer view `v` (independent of the
+    model: plain arithmetic on the trace). -/
+def rbfWantOuts (v : View) (fee : Int) (closerScript closeeScript : String) : List (Int × String) :=
+  let credit : Int := v.commitFee + (if v.anchors then 660 else 0)
+  let closerOwed : Int := Int.ofNat (v.localMsat / 1000) + (if v.isInit then credit else 0) - fee
+  let closeeOwed : Int := Int.ofNat (v.remoteMsat / 1000) + (if v.isInit then 0 else credit)
+  sortPairs ((if closerOwed ≥ v.localDust then [(closerOwed, closerScript)] else []) ++
+             (if closeeOwed ≥ v.remoteDust then [(closeeOwed, closeeScript)] else []))
+
+/-- end of a legacy negotiation case: correspondence of the final state + the monitor. -/
+def negEnd (s : St) (rest : List String) : IO St := do
+  let s := { s with ops := s.ops + 1 }
+  let hdr := s.hdr
+  let delivered := (kvNat? rest "delivered").getD 0
+  let capped := b01 rest "capped"
+  let stI := (kv? rest "stateI").getD "?"
+  let stR := (kv? rest "stateR").getD "?"
+  let offI := intList ((kv? rest "offersI").getD "-")
+  let offR := intList ((kv? rest "offersR").getD "-")
+  let txeq := (kvInt? rest "txeq").getD (-1)
+  let txfI := (kvInt? rest "txfeeI").getD (-1)
+  let txfR := (kvInt? rest "txfeeR").getD (-1)
+  let mut s := { s with negMaxDelivered := max s.negMaxDelivered delivered }
+  -- correspondence: final model state
+  if let (some nI, some nR) := (s.nI, s.nR) then
+    if sortInts nI.offers != offI || sortInts nR.offers != offR then
+      s ← mismatch s s!"end: offers model I={sortInts nI.offers} R={sortInts nR.offers} impl I={offI} R={offR}"
+    if nI.last != (kvInt? rest "lastI").getD 0 || nR.last != (kvInt? rest "lastR").getD 0 then
+      s ← mismatch s s!"end: last proposals model I={nI.last} R={nR.last}"
+    if nI.done.isSome != (stI == "fin") || nR.done.isSome != (stR == "fin") then
+      s ← mismatch s s!"end: finished model I={nI.done.isSome} R={nR.done.isSome} impl I={stI} R={stR}"
+  -- monitor, from the trace alone
+  let idealI := (kvInt? hdr "idealI").getD 0
+  let idealR := (kvInt? hdr "idealR").getD 0
+  let openerSat := (kvInt? hdr "openerSat").getD 0
+  let dustI := (kvInt? hdr "dustI").getD 0
+  let tap := b01 hdr "taproot"
+  let bothFin := stI == "fin" && stR == "fin"
+  if capped then s := { s with negCapped := s.negCapped + 1 }
+  if s.negErr.isSome then s := { s with negErrs := s.negErrs + 1 }
+  if bothFin then
+    s := { s with negAgreed := s.negAgreed + 1 }
+    match s.lastFinal with
+    | none => s ← monitor s "agreed-fee" "both finished without a final offer"
+    | some f =>
+      if !(offI.contains f && offR.contains f) then
+        s ← monitor s "agreed-fee" s!"agreed fee {f} was not offered (signed) by both: I={offI} R={offR}"
+      if txeq != 1 then
+        s ← monitor s "same-tx" "the two closers hold different closing transactions"
+      if txfI != txfR then
+        s ← monitor s "agreed-fee" s!"closing txs pay different fees {txfI} / {txfR}"
+      if openerSat - f ≥ dustI && dustI ≥ 0 && (kvInt? hdr "otherSat").getD 0 ≥ (kvInt? hdr "dustR").getD 0 && txfI != f then
+        s ← monitor s "agreed-fee" s!"closing tx pays fee {txfI}, agreed {f}"
+  else if (stI == "fin") != (stR == "fin") && !capped && s.negErr.isNone then
+    s ← monitor s "half-closed" s!"negotiation stopped with only one side finished (I={stI} R={stR})"
+  -- the termination clause. Hypotheses of `negotiation_terminates` (declared in checks/C17.json):
+  -- both ideals >= 10 sat, both <= the opener's cap, both <= what the opener can pay.
+  let lo := min idealI idealR
+  let hi := max idealI idealR
+  let budget := s.negBudget
+  if lo < 10 then s := { s with negSkipBelow10 := s.negSkipBelow10 + 1 }
+  else if idealI > s.implMaxI then s := { s with negSkipOwnCap := s.negSkipOwnCap + 1 }
+  else if idealR > s.implMaxI then s := { s with negSkipOtherCap := s.negSkipOtherCap + 1 }
+  else if hi > budget then s := { s with negSkipOverBudget := s.negSkipOverBudget + 1 }
+  -- realistic ideals within the caps, but the opener cannot pay the larger one: the real code
+  -- aborts ("unable to sign new co op close offer: initiator cannot afford ..."). Reported, not
+  -- judged: the affordability hypothesis is declared in checks/C17.json.
+  if lo ≥ 100 && idealI ≤ s.implMaxI && idealR ≤ s.implMaxI && hi > budget && !bothFin then
+    IO.println s!"INFO case={s.caseId} clause=over-budget-abort idealI={idealI} idealR={idealR} maxI={s.implMaxI} budget={budget} stateI={stI} stateR={stR} err={s.negErr.getD "-"}"
+    s := { s with negOverBudgetAborts := s.negOverBudgetAborts + 1 }
+  let withinCaps := hi ≤ s.implMaxI && hi ≤ budget
+  if lo ≥ 10 && withinCaps && hi < 1152921504606846976 then
+    s := { s with negChecked := s.negChecked + 1 }
+    if lo ≥ 100 then s := { s with negRealistic := s.negRealistic + 1 }
+    let k := lo.toNat / 10
+    let bound := if tap then 3 else 5 + (hi - lo).toNat / k
+    if !bothFin || capped || s.negErr.isSome then
+      s ← monitor s "terminates" s!"honest negotiation idealI={idealI} idealR={idealR} maxI={s.implMaxI} budget={budget} did not reach agreement (I={stI} R={stR} capped={capped} err={s.negErr.getD "-"})"
+    else if delivered > bound then
+      s ← monitor s "terminates" s!"needed {delivered} messages, bound {bound}"
+    if let some f := s.lastFinal then
+      if f < lo || f > hi then
+        s ← monitor s "agreed-fee" s!"agreed fee {f} outside [{lo},{hi}]"
+  return s
+
 def step (s : St) (line : String) : IO St := do
   let s := { s with lines := s.lines + 1 }
   let ws := words line
   match ws with
   | "FACT" :: rest =>
-    let chk (s : St) (key : String) (v : Int) : IO St :=
+    -- every constant the stream must report has to be present AND equal to the model's
+    let required : List (String × Int) :=
+      if s.stream == "lnwallet" then
+        [("anchorSize", anchorSize), ("maxRBFSequence", maxRBFSequence),
+         ("defaultSequence", defaultSequence), ("maxSatoshi", maxSatoshi)]
+      else if s.stream == "chancloser" then [("maxFeeMult", defaultMaxFeeMultiplier)]
+      else if s.stream == "rbf" then [("anchorSize", anchorSize), ("maxRBFSequence", maxRBFSequence)]
+      else []
+    let mut s := { s with factSeen := true }
+    for (key, v) in required do
       match kvInt? rest key with
-      | none => pure s
-      | some x => if x == v then pure s else mismatch s s!"fact {key}: model={v} impl={x}"
-    let s ← chk s "anchorSize" anchorSize
-    let s ← chk s "maxRBFSequence" maxRBFSequence
-    let s ← chk s "defaultSequence" defaultSequence
-    let s ← chk s "maxSatoshi" maxSatoshi
-    chk s "maxFeeMult" defaultMaxFeeMultiplier
+      | none => s ← mismatch s s!"fact {key}: not reported by the harness"
+      | some x => if x != v then s ← mismatch s s!"fact {key}: model={v} impl={x}"
+    return s
   | "CASE" :: id :: rest =>
     let kind := (kv? rest "kind").getD ""
     let mut s := { s with caseId := id, kind := kind, hdr := rest, cases := s.cases + 1,
@@ -297,15 +466,21 @@ def step (s : St) (line : String) : IO St := do
       s := { s with chanCases := s.chanCases + 1,
                     chanRbf := s.chanRbf + (if (kv? rest "mode").getD "" != "legacy" then 1 else 0),
                     chanPayments := s.chanPayments + (if (kv? rest "reached").getD "" == "payments" then 1 else 0) }
+    if kind == "rbf" then
+      s := { s with rbfCases := s.rbfCases + 1, rbfStuck := [], rbfPending := none, rbfAcceptTx := none }
     if kind == "neg" then
       let idealI := (kvInt? rest "idealI").getD 0
       let idealR := (kvInt? rest "idealR").getD 0
-      let budget := (kvInt? rest "openerSat").getD 0
+      -- the largest fee for which CreateCloseProposal succeeds (Props.proposal_ok_iff_fee_le_budget[_dust])
+      let openerSat := (kvInt? rest "openerSat").getD 0
+      let otherDust := (kvInt? rest "otherSat").getD 0 < (kvInt? rest "dustR").getD 0
+      let budget := if otherDust then openerSat - (kvInt? rest "dustI").getD 0 else openerSat
+      s := { s with negBudget := budget, negDustOther := s.negDustOther + (if otherDust then 1 else 0) }
       let tap := b01 rest "taproot"
       s := { s with negCases := s.negCases + 1, negTaproot := s.negTaproot + (if tap then 1 else 0),
                     nI := some (mkNode idealI (maxFeeOf idealI ((kvInt? rest "maxCfgI").getD 0)) budget true tap),
                     nR := some (mkNode idealR (maxFeeOf idealR ((kvInt? rest "maxCfgR").getD 0)) budget false tap) }
-    if (kind == "chan" || kind == "neg") && s.samples < 6 && s.cases % 7 == 3 then
+    if (kind == "chan" || kind == "neg" || kind == "rbf") && s.samples < 6 && s.cases % 7 == 3 then
       IO.println s!"SAMPLE {line}"
       s := { s with samples := s.samples + 1 }
     return s
@@ -417,19 +592,25 @@ def step (s : St) (line : String) : IO St := do
     let s := { s with ops := s.ops + 1 }
     let some vl := s.viewA | mismatch s "crossfee without view"
     let some fee := kvInt? s.hdr "fee" | mismatch s "no fee"
-    let m0 := modelProp vl.v (reqOf s.hdr true fee)
+    let r := resOf ws
+    let res := r.headD "?"
+    -- what the real CreateCloseProposal built for fee+1 (trace), `;` for spaces
+    let alt := (((kv? r "alt").getD "?").replace ";" " ").replace "~" "="
     let m1 := modelProp vl.v (reqOf s.hdr true (fee + 1))
-    let res := (resOf ws).headD "?"
+    let m1s := if m1.1 == "ok" then m1.2.1 else "err-" ++ m1.1
+    let mut s ← if m1s == alt then pure s else mismatch s s!"crossfee: proposal for fee+1 model=[{m1s}] impl=[{alt}]"
+    let some pa := s.propA | return s
+    let sameTx := pa.ok && alt == pa.tx
     if res == "ok" then
-      let s := { s with crossOk := s.crossOk + 1 }
-      if m0.1 == "ok" && m1.1 == "ok" && m0.2.1 != m1.2.1 then
-        monitor s "sig-valid" "signatures made for one fee complete a close transaction with a different fee and different outputs"
-      else return s
+      s := { s with crossOk := s.crossOk + 1 }
+      -- monitor, trace against trace: signatures for fee must not complete a DIFFERENT tx
+      if !sameTx then
+        s ← monitor s "sig-valid" s!"signatures made for [{pa.tx}] completed the close for fee+1 [{alt}]"
     else
-      let s := { s with crossRej := s.crossRej + 1 }
-      if m1.1 == "ok" && m0.2.1 == m1.2.1 then
-        mismatch s s!"crossfee: model says tx unchanged, impl={res}"
-      else return s
+      s := { s with crossRej := s.crossRej + 1 }
+      if sameTx then
+        s ← monitor s "sig-valid" s!"same transaction for fee and fee+1 but the exchanged signatures were rejected ({res})"
+    return s
   | "musig" :: _ => mismatch s "musig session setup failed in the harness"
   -- ---------------------------------------------------------------- chancloser
   | "ratchet" :: rest =>
@@ -495,7 +676,7 @@ def step (s : St) (line : String) : IO St := do
         let s := { s with nI := some n' }
         if model == impl then return s else mismatch s s!"begin I: model={model} impl={impl}"
       | none =>
-        let s := { s with negErr := some "afford" }
+        let s := { s with negErr := some "cannotsign" }
         if impl.startsWith "err" then return s else mismatch s s!"begin I: model=err impl={impl}"
     else
       if impl == "none" then return s else mismatch s s!"begin R: model=none impl={impl}"
@@ -521,68 +702,141 @@ def step (s : St) (line : String) : IO St := do
     | "err" :: e :: _ => s := { s with negErr := some e }
     | _ => pure ()
     return s
-  | "setup" :: _ => mismatch s s!"negotiation setup failed: {line}"
-  | "end" :: rest =>
+  -- ----------------------------------------------------------------------- rbf
+  | "shutdown" :: _ =>
     let s := { s with ops := s.ops + 1 }
-    let hdr := s.hdr
-    let delivered := (kvNat? rest "delivered").getD 0
-    let capped := b01 rest "capped"
-    let stI := (kv? rest "stateI").getD "?"
-    let stR := (kv? rest "stateR").getD "?"
-    let offI := intList ((kv? rest "offersI").getD "-")
-    let offR := intList ((kv? rest "offersR").getD "-")
-    let txeq := (kvInt? rest "txeq").getD (-1)
-    let txfI := (kvInt? rest "txfeeI").getD (-1)
-    let txfR := (kvInt? rest "txfeeR").getD (-1)
-    let mut s := { s with negMaxDelivered := max s.negMaxDelivered delivered }
-    -- correspondence: final model state
-    if let (some nI, some nR) := (s.nI, s.nR) then
-      if sortInts nI.offers != offI || sortInts nR.offers != offR then
-        s ← mismatch s s!"end: offers model I={sortInts nI.offers} R={sortInts nR.offers} impl I={offI} R={offR}"
-      if nI.last != (kvInt? rest "lastI").getD 0 || nR.last != (kvInt? rest "lastR").getD 0 then
-        s ← mismatch s s!"end: last proposals model I={nI.last} R={nR.last}"
-      if nI.done.isSome != (stI == "fin") || nR.done.isSome != (stR == "fin") then
-        s ← mismatch s s!"end: finished model I={nI.done.isSome} R={nR.done.isSome} impl I={stI} R={stR}"
-    -- monitor, from the trace alone
-    let idealI := (kvInt? hdr "idealI").getD 0
-    let idealR := (kvInt? hdr "idealR").getD 0
-    let openerSat := (kvInt? hdr "openerSat").getD 0
-    let dustI := (kvInt? hdr "dustI").getD 0
-    let tap := b01 hdr "taproot"
-    let bothFin := stI == "fin" && stR == "fin"
-    if capped then s := { s with negCapped := s.negCapped + 1 }
-    if s.negErr.isSome then s := { s with negErrs := s.negErrs + 1 }
-    if bothFin then
-      s := { s with negAgreed := s.negAgreed + 1 }
-      match s.lastFinal with
-      | none => s ← monitor s "agreed-fee" "both finished without a final offer"
-      | some f =>
-        if !(offI.contains f && offR.contains f) then
-          s ← monitor s "agreed-fee" s!"agreed fee {f} was not offered (signed) by both: I={offI} R={offR}"
-        if txeq != 1 then
-          s ← monitor s "same-tx" "the two closers hold different closing transactions"
-        if txfI != txfR then
-          s ← monitor s "agreed-fee" s!"closing txs pay different fees {txfI} / {txfR}"
-        if openerSat - f ≥ dustI && dustI ≥ 0 && txfI != f then
-          s ← monitor s "agreed-fee" s!"closing tx pays fee {txfI}, agreed {f}"
-    else if (stI == "fin") != (stR == "fin") && !capped && s.negErr.isNone then
-      s ← monitor s "half-closed" s!"negotiation stopped with only one side finished (I={stI} R={stR})"
-    -- the termination clause
-    let lo := min idealI idealR
-    let hi := max idealI idealR
-    let withinCaps := hi ≤ s.implMaxI && hi ≤ openerSat
-    if lo ≥ 10 && withinCaps && hi < 1152921504606846976 then
-      if lo ≥ 100 then s := { s with negRealistic := s.negRealistic + 1 }
-      let k := lo.toNat / 10
-      let bound := if tap then 3 else 5 + (hi - lo).toNat / k
-      if !bothFin || capped || s.negErr.isSome then
-        s ← monitor s "terminates" s!"honest negotiation idealI={idealI} idealR={idealR} maxI={s.implMaxI} did not reach agreement (I={stI} R={stR} capped={capped} err={s.negErr.getD "-"})"
-      else if delivered > bound then
-        s ← monitor s "terminates" s!"needed {delivered} messages, bound {bound}"
-      if let some f := s.lastFinal then
-        if f < lo || f > hi then
-          s ← monitor s "agreed-fee" s!"agreed fee {f} outside [{lo},{hi}]"
+    let some va := s.viewA | mismatch s "shutdown without view"
+    let first := (kv? s.hdr "firstShutdown").getD "A"
+    -- the side that receives the first shutdown reaches the negotiation state (and makes its
+    -- automatic offer) first
+    let order := [otherSide first, first]
+    let mut expect := "ok"
+    for w in order do
+      if expect == "ok" then
+        if let some t := rbfTermsOf s w then
+          match rbfOffer t (rbfFirstFee s.hdr w va.capacity) with
+          | .err e => expect := s!"{w} err {errName e}"
+          | _ => pure ()
+    let impl := match ws with
+      | _ :: "=>" :: "ok" :: _ => "ok"
+      | _ :: w :: "=>" :: "err" :: e :: _ => s!"{w} err {e}"
+      | _ => "?"
+    if va.v.taproot then return { s with rbfTaproot := s.rbfTaproot + 1 } else
+    if impl == expect then return s else mismatch s s!"shutdown: model=[{expect}] impl=[{impl}]"
+  | "offer" :: w :: rest =>
+    let s := { s with ops := s.ops + 1, nontrivial := s.nontrivial + 1, rbfPending := none, rbfAcceptTx := none }
+    let some fee := kvInt? rest "fee" | mismatch s "bad offer"
+    let some t := rbfTermsOf s w | mismatch s "offer without views"
+    let r := resOf ws
+    let envH := (kvNat? s.hdr "envHeight").getD 0
+    let model := if s.rbfStuck.contains w then "err invalidtransition" else
+      match rbfOffer t fee with
+      | .skip => "skip"
+      | .err e => s!"err {errName e}"
+      | .sent l _ _ => s!"sent fee={fee} lock={envH} label={labelName l}"
+    let impl := match r with
+      | "skip" :: _ => "skip"
+      | "err" :: e :: _ => s!"err {e}"
+      | "sent" :: rr => s!"sent fee={(kvInt? rr "fee").getD (-1)} lock={(kvNat? rr "lock").getD 0} label={(kv? rr "label").getD "?"}"
+      | _ => "?"
+    let mut s ← if model == impl then pure s else mismatch s s!"offer {w} fee={fee}: model=[{model}] impl=[{impl}]"
+    match r with
+    | "skip" :: _ => s := { s with rbfSkips := s.rbfSkips + 1 }
+    | "err" :: _ => s := { s with rbfOfferErrs := s.rbfOfferErrs + 1 }
+    | "sent" :: rr =>
+      let label := (kv? rr "label").getD "?"
+      let lock := (kvNat? rr "lock").getD 0
+      let mtx := match rbfOffer t fee with
+        | .sent _ tx _ => renderTx tx
+        | _ => "?"
+      s := { s with rbfSent := s.rbfSent + 1, rbfPending := some (w, fee, label, lock, mtx),
+                    rbfLabelCloserOnly := s.rbfLabelCloserOnly + (if label == "closerOnly" then 1 else 0),
+                    rbfLabelCloseeOnly := s.rbfLabelCloseeOnly + (if label == "closeeOnly" then 1 else 0),
+                    rbfLabelBoth := s.rbfLabelBoth + (if label == "both" then 1 else 0),
+                    rbfLatentLock := s.rbfLatentLock + (if lock != 0 then 1 else 0) }
+      -- monitor: the closer offers exactly the fee it was asked to pay and can pay it
+      if (kvInt? rr "fee").getD (-1) != fee then
+        s ← monitor s "rbf-fee" s!"closer {w} was asked to offer {fee} but closing_complete carries {(kvInt? rr "fee").getD (-1)}"
+      if Int.ofNat (t.v.localMsat / 1000) < fee then
+        s ← monitor s "value" s!"closer {w} offers fee {fee} above its balance {t.v.localMsat / 1000}"
+      if (labelOf label).isNone then
+        s ← monitor s "rbf-label" s!"closing_complete carries sig fields [{label}], exactly one expected"
+    | _ => pure ()
     return s
+  | "accept" :: w :: _ =>
+    let s := { s with ops := s.ops + 1, nontrivial := s.nontrivial + 1 }
+    let some (closer, fee, label, lock, mtx) := s.rbfPending | mismatch s "accept without offer"
+    let some t := rbfTermsOf s w | mismatch s "accept without views"
+    let some tc := rbfTermsOf s closer | mismatch s "accept without views"
+    let r := resOf ws
+    let model := match labelOf label with
+      | none => "err sigfield"
+      | some l =>
+        match rbfAccept t fee l lock with
+        | .cannotPay => "err remotecannotpay"
+        | .badLabel => "err sigfield"
+        | .err e => s!"err {errName e}"
+        | .ok tx => if renderTx tx == mtx then s!"ok {renderTx tx}" else "err sigreject"
+    let impl := match r with
+      | "ok" :: rr => s!"ok {txText rr}"
+      | "err" :: e :: _ => s!"err {e}"
+      | _ => "?"
+    let mut s ← if model == impl then pure s else mismatch s s!"accept {w}: model=[{model}] impl=[{impl}]"
+    let production := lock == 0   -- Environment.BlockHeight is never set by lnd
+    match r with
+    | "ok" :: rr =>
+      let p := parseProp r
+      s := { s with rbfAccepted := s.rbfAccepted + 1, rbfAcceptTx := some p.tx }
+      if kv? rr "engine" != some "ok" then
+        s ← monitor s "sig-valid" s!"closee {w} broadcast a close tx the script engine rejects"
+      if (kvInt? rr "fee").getD (-1) != fee then
+        s ← monitor s "rbf-fee" s!"closing_sig carries fee {(kvInt? rr "fee").getD (-1)}, closer offered {fee}"
+      -- value identity: closer pays, each output present iff >= its owner's channel dust limit
+      let want := rbfWantOuts tc.v fee (hxOf s.hdr (if closer == "A" then "sA" else "sB"))
+                    (hxOf s.hdr (if closer == "A" then "sB" else "sA"))
+      if sortPairs p.outs != want then
+        s ← monitor s "value" s!"RBF close (closer {closer}, fee {fee}) outputs [{p.tx}], want {want}"
+      let total := p.outs.foldl (fun acc o => acc + o.1) (0 : Int)
+      if let some va := s.viewA then
+        if Int.ofNat (tc.v.localMsat + tc.v.remoteMsat) + 1000 * (tc.v.commitFee + (if tc.v.anchors then 660 else 0)) ≤ va.capacity * 1000
+            && total + fee > va.capacity then
+          s ← monitor s "capacity" s!"outputs {total} + fee {fee} exceed capacity {va.capacity}"
+      -- diagnostic: does the sig-field label describe the outputs actually present?
+      let credit : Int := tc.v.commitFee + (if tc.v.anchors then 660 else 0)
+      let closerOwed : Int := Int.ofNat (tc.v.localMsat / 1000) + (if tc.v.isInit then credit else 0) - fee
+      let closeeOwed : Int := Int.ofNat (tc.v.remoteMsat / 1000) + (if tc.v.isInit then 0 else credit)
+      let hasCloser := closerOwed ≥ tc.v.localDust
+      let hasClosee := closeeOwed ≥ tc.v.remoteDust
+      let agrees := (label == "both" && hasCloser && hasClosee) || (label == "closerOnly" && hasCloser && !hasClosee)
+                    || (label == "closeeOnly" && !hasCloser && hasClosee)
+      if !agrees then s := { s with rbfLabelDisagree := s.rbfLabelDisagree + 1 }
+    | _ =>
+      s := { s with rbfStuck := closer :: s.rbfStuck }
+      if production then
+        s ← monitor s "sig-valid" s!"closee {w} rejected the honest closer's closing_complete (fee {fee}, label {label}): {impl}"
+      else
+        s := { s with rbfLatentLockRejected := s.rbfLatentLockRejected + 1 }
+    return s
+  | "finish" :: w :: _ =>
+    let s := { s with ops := s.ops + 1, nontrivial := s.nontrivial + 1 }
+    let r := resOf ws
+    let mut s := s
+    match r with
+    | "ok" :: rr =>
+      let p := parseProp r
+      s := { s with rbfFinished := s.rbfFinished + 1 }
+      if kv? rr "engine" != some "ok" then
+        s ← monitor s "sig-valid" s!"closer {w} broadcast a close tx the script engine rejects"
+      if kvNat? rr "txeq" != some 1 || some p.tx != s.rbfAcceptTx then
+        s ← monitor s "same-tx" s!"closer's and closee's close transactions differ: [{p.tx}] vs [{s.rbfAcceptTx.getD "-"}]"
+    | _ =>
+      if s.rbfAcceptTx.isSome then
+        s ← monitor s "sig-valid" s!"closer {w} could not complete the close with the closee's closing_sig: {r}"
+      s ← mismatch s s!"finish {w}: model=ok impl={r}"
+    return s
+  | "setup" :: _ => mismatch s s!"negotiation setup failed: {line}"
+  | "end" :: _ =>
+    if s.kind == "rbf" then return { s with ops := s.ops + 1 } else negEnd s (ws.drop 1)
   | ["END"] =>
     if s.kind == "chan" then chanMonitor s else return s
   | [] => return s
@@ -597,7 +851,7 @@ def main (args : List String) : IO Unit := do
   IO.println s!"STAT cases={s.cases}"
   IO.println s!"STAT evaluations={s.ops}"
   IO.println s!"STAT nontrivial={s.nontrivial}"
-  if s.stream != "chancloser" then
+  if s.stream == "lnwallet" then
     IO.println s!"STAT ccb_ok={s.ccbOk}"
     IO.println s!"STAT ccb_err={s.ccbErr}"
     IO.println s!"STAT cctx_outputs0={s.cctx0}"
@@ -613,7 +867,10 @@ def main (args : List String) : IO Unit := do
     IO.println s!"STAT chan_two_outputs={s.chanTwoOut}"
     IO.println s!"STAT crossfee_accepted_same_tx={s.crossOk}"
     IO.println s!"STAT crossfee_rejected={s.crossRej}"
-  if s.stream != "lnwallet" then
+    IO.println s!"STAT funds_identity_checked={s.fundsChecked}"
+    IO.println s!"STAT pending_update_fee_cases={s.feeUpdateCases}"
+    IO.println s!"STAT pending_update_fee_asymmetric_commitments={s.feeUpdateAsym}"
+  if s.stream == "chancloser" then
     IO.println s!"STAT fee_fn_grid_lines={s.gridLines}"
     IO.println s!"STAT neg_cases={s.negCases}"
     IO.println s!"STAT neg_taproot={s.negTaproot}"
@@ -622,5 +879,28 @@ def main (args : List String) : IO Unit := do
     IO.println s!"STAT neg_errors={s.negErrs}"
     IO.println s!"STAT neg_capped_nonterminating={s.negCapped}"
     IO.println s!"STAT neg_max_messages={s.negMaxDelivered}"
-  IO.println s!"STAT mismatches={s.mismatches}"
+    IO.println s!"STAT neg_termination_clause_checked={s.negChecked}"
+    IO.println s!"STAT neg_skipped_ideal_below_10={s.negSkipBelow10}"
+    IO.println s!"STAT neg_skipped_opener_ideal_above_own_cap={s.negSkipOwnCap}"
+    IO.println s!"STAT neg_skipped_other_ideal_above_opener_cap={s.negSkipOtherCap}"
+    IO.println s!"STAT neg_skipped_fee_above_opener_budget={s.negSkipOverBudget}"
+    IO.println s!"STAT neg_other_side_below_dust={s.negDustOther}"
+    IO.println s!"STAT neg_realistic_over_budget_aborts={s.negOverBudgetAborts}"
+  if s.stream == "rbf" then
+    IO.println s!"STAT rbf_cases={s.rbfCases}"
+    IO.println s!"STAT rbf_taproot_cases={s.rbfTaproot}"
+    IO.println s!"STAT rbf_offers_sent={s.rbfSent}"
+    IO.println s!"STAT rbf_offers_skipped_cannot_pay={s.rbfSkips}"
+    IO.println s!"STAT rbf_offer_errors={s.rbfOfferErrs}"
+    IO.println s!"STAT rbf_closee_accepted={s.rbfAccepted}"
+    IO.println s!"STAT rbf_closer_finished={s.rbfFinished}"
+    IO.println s!"STAT rbf_label_closer_only={s.rbfLabelCloserOnly}"
+    IO.println s!"STAT rbf_label_closee_only={s.rbfLabelCloseeOnly}"
+    IO.println s!"STAT rbf_label_both={s.rbfLabelBoth}"
+    IO.println s!"STAT rbf_label_disagrees_with_outputs_present={s.rbfLabelDisagree}"
+    IO.println s!"STAT rbf_nonzero_locktime_offers_not_production={s.rbfLatentLock}"
+    IO.println s!"STAT rbf_nonzero_locktime_rejected_not_production={s.rbfLatentLockRejected}"
+  if !s.factSeen then
+    IO.println s!"MISMATCH case=0 line=0 no FACT line in stream {s.stream}"
+  IO.println s!"STAT mismatches={s.mismatches + (if s.factSeen then 0 else 1)}"
   IO.println s!"STAT monitor_failures={s.monitorFails}"
